@@ -144,10 +144,12 @@ class _InlineFunction(XPathFunction):
 
         context = copy(context)
         if context is not None:
-            # Parameters and closure variables are local to the function body
-            context.variables = context.variables.copy()
-            if self.variables:
-                context.variables.update(self.variables)
+            # Parameters and closure variables are local to the function body, that
+            # doesn't see the variables in scope where the function item is called.
+            if self.variables is not None:
+                context.variables = self.variables.copy()
+            else:
+                context.variables = context.variables.copy()
 
         if self.varnames is None:
             self.varnames = []
@@ -309,8 +311,8 @@ class _InlineFunction(XPathFunction):
         # A function test
         if not isinstance(context.item, XPathFunction):
             return []
-        elif self.source == 'function(*)':
-            return context.item
+        elif self.sequence_types == ['*']:
+            return context.item  # function(*), with any occurrence indicator
         elif context.item.match_function_test(self.sequence_types):
             return context.item
         else:
